@@ -77,8 +77,37 @@ impl Parse for ItemPath {
     }
 }
 
+/// Pointer and array types nest recursively; the nesting depth is bounded so that a hostile or
+/// corrupted input produces an error instead of exhausting the stack.
+const MAX_TYPE_NESTING: usize = 64;
+
+thread_local! {
+    static TYPE_NESTING: std::cell::Cell<usize> = const { std::cell::Cell::new(0) };
+}
+
+struct TypeNestingGuard;
+impl TypeNestingGuard {
+    fn enter(input: ParseStream) -> Result<Self> {
+        let depth = TYPE_NESTING.with(|d| {
+            d.set(d.get() + 1);
+            d.get()
+        });
+        let guard = TypeNestingGuard;
+        if depth > MAX_TYPE_NESTING {
+            return Err(input.error("type is nested too deeply"));
+        }
+        Ok(guard)
+    }
+}
+impl Drop for TypeNestingGuard {
+    fn drop(&mut self) {
+        TYPE_NESTING.with(|d| d.set(d.get() - 1));
+    }
+}
+
 impl Parse for Type {
     fn parse(input: ParseStream) -> Result<Self> {
+        let _nesting = TypeNestingGuard::enter(input)?;
         let lookahead = input.lookahead1();
         if lookahead.peek(kw::unknown) {
             input.parse::<kw::unknown>()?;
